@@ -100,7 +100,7 @@ class Check(Prop):
     RULE = ("cases = (source bytes, flags in {none,-i}); enumerated: regression inputs that hung the pinned tree and every token "
             "prefix cut of a fixed corpus subset crossed with truncation tails (unterminated comment/string/%-literal/heredoc, open "
             "def/class/case-in/block/bracket); generated: truncated and mutated corpus programs, hostile fragments, cyclic "
-            "inheritance/include/extend graphs of length 1-4 followed by ancestor-walking calls, value cycles (locals/ivars assigned in a ring, mutually recursive methods, self-containing literals) and whole grammar-generated programs. Oracle: the analysis finishes; an "
+            "inheritance/include/extend graphs of length 1-4 followed by ancestor-walking calls, value cycles (locals/ivars assigned in a ring, mutually recursive methods, self-containing literals) whole grammar-generated programs and calls of shipped configured methods (complete and cut off). Oracle: the analysis finishes; an "
             "in-process deadline expiry is only a trigger - a hang is believed when the guard-off binary prints `timeout` (or is "
             "killed) 3 out of 3 times while holding the machine-wide exclusive lock. Stack overflow / out-of-memory fatal errors "
             "count as non-termination. Non-trivial = ends inside an open construct or declares a cycle; distinct by SHA-1.")
@@ -139,7 +139,12 @@ class Check(Prop):
         frag_trunc = st.builds(lambda a, tail: a + tail, mutate.fragments(6), st.sampled_from(TRUNC_TAILS))
         from .. import rb
         whole = rb.program(max_stmts=8, case_in=True, errors=0.15).map(lambda p: rb.render(p["tree"]))
-        src = st.one_of(trunc, trunc, mutate.mutated(texts), frag_trunc, cyclic(), cyclic(), value_cycles(), whole, mutate.raw_latin1(128))
+        from .. import shipped
+        calls = shipped.strategy(self.repo)
+        # calls of shipped configured methods with arbitrary argument lists, complete and cut off inside the argument list or block
+        calls_trunc = st.builds(lambda t, k, tail: t[:max(1, len(t) - k)] + tail, calls, st.integers(0, 12), st.sampled_from(TRUNC_TAILS))
+        src = st.one_of(trunc, trunc, mutate.mutated(texts), frag_trunc, cyclic(), cyclic(), value_cycles(), whole, mutate.raw_latin1(128),
+                        calls, calls_trunc)
         return st.fixed_dictionaries({"src": src, "flags": st.sampled_from([[], ["-i"]])})
 
     def sample(self, case):
